@@ -39,16 +39,24 @@ WIDTH = {"u8": 1, "i8": 1, "u16": 2, "i16": 2, "u32": 4, "i32": 4, "u64": 8, "i6
 
 
 class Ev:
-    __slots__ = ("enc", "attr", "span", "sub", "checked", "fn", "pos")
+    __slots__ = ("enc", "attr", "span", "sub", "checked", "fn", "pos", "guards")
 
-    def __init__(self, enc, attr=None, span=None, sub=None, checked=False, fn=None, pos=None):
+    def __init__(self, enc, attr=None, span=None, sub=None, checked=False, fn=None, pos=None,
+                 guards=frozenset()):
         self.pos = pos
+        self.guards = guards
         if attr in ("ret", "self", "e", "b", "w", "r", "map_or", "f", "x", "v"):
             attr = None
         self.enc, self.attr, self.span, self.sub, self.checked, self.fn = enc, attr, span, sub, checked, fn
 
     def ident(self):
-        return (self.key(), self.attr)
+        return (self.key(), self.attr, tuple(sorted(self.guards)))
+
+    def with_guards(self, g):
+        if not g:
+            return self
+        return Ev(self.enc, self.attr, self.span, self.sub, self.checked, self.fn, self.pos,
+                  frozenset(self.guards | g))
 
     def key(self):
         if self.sub is not None:
@@ -149,7 +157,8 @@ class Linear:
             ev = getattr(self, "_%s_%s" % (side, k))(bb, t)
             if ev is None:
                 continue
-            out.extend(ev if isinstance(ev, list) else [ev])
+            g = self.version_guards(bb)
+            out.extend([e.with_guards(g) for e in (ev if isinstance(ev, list) else [ev])])
         return out
 
     # reader events
@@ -313,6 +322,10 @@ class Linear:
             k = self.classify(t, side)
             ev = getattr(self, "_%s_%s" % (side, k))(bb, t)
             evs[bb] = ev if isinstance(ev, list) else ([ev] if ev is not None else [])
+        for bb in list(evs):
+            g = self.version_guards(bb)
+            if g:
+                evs[bb] = [e.with_guards(g) for e in evs[bb]]
         memo = {}
         onstack = set()
 
@@ -376,6 +389,33 @@ class Linear:
         for seq in res:
             uniq.setdefault(tuple(e.ident() for e in seq), seq)
         return list(uniq.values())
+
+    def version_guards(self, bb):
+        """(predicate, polarity) of the `version.has_*()` tests that decide whether block bb runs"""
+        import vc
+        b = self.b
+        out = set()
+        cur = bb
+        hops = 0
+        while hops < 12:
+            sw = vc.controlling_switch(b, cur)
+            if sw is None:
+                break
+            hops += 1
+            t = b.blocks[sw].term
+            o = self.du.origin(t.discr)
+            neg = False
+            while o[0] == "un" and o[1] == "Not":
+                neg = not neg
+                o = o[2]
+            if o[0] == "call" and re.search(r"TxVersion::has_\w+$", o[1]):
+                arms = list(t.arms) + [("o", t.otherwise)]
+                inside = [v for v, tb in arms if tb is not None and (tb == bb or b.dominates(tb, bb))]
+                if len(inside) == 1:        # bb lies in exactly one arm (not a join after the test)
+                    pol = (inside[0] != 0) != neg
+                    out.add((o[1].rsplit("::", 1)[-1], pol))
+            cur = sw
+        return frozenset(out)
 
     # ---- helpers
     def _closure_events(self, t, side):
@@ -584,6 +624,7 @@ class Matcher:
         self.alias = alias or {}
         self.attr_pairs = 0
         self.why = None
+        self.best = None
 
     def paths(self, fid, side):
         k = (fid, side)
@@ -616,15 +657,22 @@ class Matcher:
             return False
         return False
 
-    def match(self, rs, ws, depth=0):
+    def match(self, rs, ws, depth=0, empty_ctx=False):
         rs, ws = list(rs), list(ws)
         if depth > 80:
-            self.why = "nesting too deep"
-            return False
+            return self._fail("nesting too deep", ws)
         while rs and ws:
             r, w_ = rs[0], ws[0]
+            if empty_ctx and r.enc == "array" and w_.enc != "array":
+                rs.pop(0)          # count-driven array after zero counts: no bytes
+                continue
+            if not r.enc.startswith("nested:") and r.enc not in ("array", "vector"):
+                empty_ctx = False
             rn, wn = r.enc.startswith("nested:"), w_.enc.startswith("nested:")
             if rn and wn and r.enc == w_.enc:
+                if r.guards != w_.guards:
+                    return self._fail("%s is read under %s but written under %s" % (
+                        r.enc, sorted(r.guards) or "no version test", sorted(w_.guards) or "no version test"), ws)
                 rs.pop(0)
                 ws.pop(0)
                 continue
@@ -633,51 +681,71 @@ class Matcher:
                 side, ev, rest_r, rest_w = ("r", r, rs[1:], ws) if rn else ("w", w_, rs, ws[1:])
                 ps = self.paths(ev.fn, side)
                 if not ps:
-                    self.why = "%s has no linear layout to compare with %s" % (ev.enc, (w_ if rn else r))
-                    return False
+                    return self._fail("%s has no linear layout to compare with %s" % (ev.enc, (w_ if rn else r)), ws)
                 for p in ps:
                     keep = self.why
+                    if ev.guards:
+                        p = [e.with_guards(ev.guards) for e in p]
                     if side == "r" and ev.pos:
                         q = []
                         for e in p:
                             m_ = re.match(r"ret\.(\d+)$", e.attr or "")
                             if m_:
-                                e = Ev(e.enc, ev.pos.get(int(m_.group(1))), e.span, e.sub, e.checked, e.fn, e.pos)
+                                e = Ev(e.enc, ev.pos.get(int(m_.group(1))), e.span, e.sub, e.checked, e.fn, e.pos,
+                                       e.guards)
                             q.append(e)
                         p = q
-                    if side == "r" and self.match(list(p) + rest_r, ws, depth + 1):
+                    if side == "r" and self.match(list(p) + rest_r, ws, depth + 1, empty_ctx):
                         return True
-                    if side == "w" and self.match(rs, list(p) + rest_w, depth + 1):
+                    if side == "w" and self.match(rs, list(p) + rest_w, depth + 1, empty_ctx):
                         return True
                     self.why = keep or self.why
                 return False
             if not self.enc_eq(r, w_):
-                self.why = "reader has %r where writer has %r" % (r, w_)
-                return False
+                return self._fail("reader has %r where writer has %r" % (r, w_), ws)
+            if r.guards != w_.guards:
+                return self._fail("%r is read under %s but %r is written under %s" % (
+                    r, sorted(r.guards) or "no version test", w_, sorted(w_.guards) or "no version test"), ws)
             if r.sub is not None and w_.sub is not None:
                 if not self.match(r.sub, w_.sub, depth + 1):
-                    self.why = "element codec of %s: %s" % (r.enc, self.why)
-                    return False
+                    return self._fail("element codec of %s: %s" % (r.enc, self.why), ws)
             if r.sub is None and w_.sub is None:
                 ra, wa = self._norm(r.attr), self._norm(w_.attr)
                 if ra and wa and not str(wa).startswith("const:") and not re.match(r"(#|ret)", ra) \
                         and not re.match(r"(#|ret)", wa):
                     if ra != wa and self.alias.get(ra, ra) != self.alias.get(wa, wa) and \
                             not (ra in wa or wa in ra):
-                        self.why = "reader stores %r as `%s` where writer emits `%s` (%r)" % (r.enc, r.attr,
-                                                                                            w_.attr, w_.enc)
-                        return False
+                        return self._fail("reader stores %r as `%s` where writer emits `%s` (%r)" % (r.enc, r.attr,
+                                                                                            w_.attr, w_.enc), ws)
                     self.attr_pairs += 1
+            if w_.enc == "cs" and str(w_.attr).startswith("const:0") and r.enc == "vector":
+                empty_ctx = True
             rs.pop(0)
             ws.pop(0)
         # trailing empty arrays on the reader side carry no bytes
+        while rs:
+            if empty_ctx and rs[0].enc == "array":
+                rs.pop(0)
+                continue
+            if rs[0].enc.startswith("nested:") and not ws:
+                ps = self.paths(rs[0].fn, "r")
+                if ps and any(len(p_) == 0 for p_ in ps):
+                    rs.pop(0)          # a nested reader with a layout that reads nothing
+                    continue
+            break
         if ws:
-            self.why = "writer continues with %r after the reader finished" % (ws[0],)
-            return False
+            return self._fail("writer continues with %r after the reader finished" % (ws[0],), ws)
         if rs:
-            self.why = "reader continues with %r after the writer finished" % (rs[0],)
-            return False
+            return self._fail("reader continues with %r after the writer finished" % (rs[0],), ws)
         return True
+
+    def _fail(self, why, ws):
+        """remember the reason of the attempt that got furthest into the writer layout"""
+        left = len(ws)
+        if self.best is None or left < self.best[0]:
+            self.best = (left, why)
+        self.why = why
+        return False
 
     def empty_layout(self, ws):
         return bool(ws) and all(e.enc == "cs" and str(e.attr).startswith("const:0") for e in ws)
@@ -690,6 +758,39 @@ class Matcher:
         return len(vs) == len(ws) and not rest
 
 
+OPAQUE = ("nested:JsDescription",)
+
+
+def expand_writer(m, seq, cap=6000, depth=0):
+    """all complete layouts of a writer layout with its nested codec calls expanded (every layout
+    of a writer callee is producible); nested calls whose callee has no loop-free layout, or that
+    are listed as opaque, stay as they are"""
+    outs = [[]]
+    for e in seq:
+        alts = None
+        if e.enc.startswith("nested:") and e.enc not in OPAQUE and depth < 12:
+            ps = m.paths(e.fn, "w")
+            if ps:
+                alts = []
+                for p in ps:
+                    p = [x.with_guards(e.guards) for x in p]
+                    alts.extend(expand_writer(m, p, cap, depth + 1))
+        if alts is None:
+            alts = [[e]]
+        new = []
+        for o in outs:
+            for a in alts:
+                new.append(o + a)
+                if len(new) > cap:
+                    return new
+        outs = new
+    # dedupe
+    uniq = {}
+    for o in outs:
+        uniq.setdefault(tuple(x.ident() for x in o), o)
+    return list(uniq.values())
+
+
 def includes(world, rf, wf, alias=None):
     """(ok, unmatched writer layouts [(layout, why)], stats) — every layout the writer can produce
     is a layout the reader follows"""
@@ -698,9 +799,17 @@ def includes(world, rf, wf, alias=None):
     if rp is None or wp is None or not rp or not wp:
         return None, [("-", "reader or writer is not a loop-free codec")], {}
     bad = []
+    wfull = []
     for ws in wp:
+        wfull.extend(expand_writer(m, list(ws)))
+    uniq = {}
+    for o in wfull:
+        uniq.setdefault(tuple(x.ident() for x in o), o)
+    wfull = list(uniq.values())
+    for ws in wfull:
         okk = False
         whys = []
+        m.best = None
         for rs in rp:
             m.why = None
             if m.empty_layout(ws) and m.match_empty(rs, ws):
@@ -712,5 +821,6 @@ def includes(world, rf, wf, alias=None):
             whys.append(m.why)
         if not okk:
             # the most informative reason: the one from the reader layout that got furthest
-            bad.append((list(ws), sorted(set(x for x in whys if x), key=len)[:2]))
-    return not bad, bad, {"reader_layouts": len(rp), "writer_layouts": len(wp), "attributed": m.attr_pairs}
+            bad.append((list(ws), [m.best[1]] if m.best else sorted(set(x for x in whys if x), key=len)[:2]))
+    return not bad, bad, {"reader_layouts": len(rp), "writer_layouts": len(wp),
+                          "writer_layouts_expanded": len(wfull), "attributed": m.attr_pairs}
